@@ -903,30 +903,45 @@ def rule_r15(prog, res) -> None:
             res.ok("C15.R15", res.site(pc, "given" if given else "None"), "returned as given" if given else "replaced by the default cosmology")
         else:
             res.violation("C15.R15", pc, pc.node, f"parse_cosmology returns {'the default cosmology' if given else 'something else than the default'} for {'a cosmology instance that was given' if given else 'None'}: " + ("the configured cosmology is silently replaced, comoving bins and physical scales are computed with the default" if given else "a missing cosmology is not resolved"), key_extra=f"parse-cosmology-{given}")
+    n_cos = 0
     for fi in prog.funcs:
         if not fi.module.name.startswith(("yaw.cosmology", "yaw.config")):
             continue
+        cparams = [q for q in fi.param_names() if "cosmo" in q]
+        if not cparams:
+            continue
         for x in walk_no_nested(fi.node):
-            if isinstance(x, (ast.Assign, ast.Return)) and isinstance(x.value, ast.BoolOp) and any(isinstance(y, ast.Call) and (dotted(y.func) or "").split(".")[-1] == "get_default_cosmology" for y in ast.walk(x.value)) and any(isinstance(v, ast.Name) and "cosmo" in v.id for v in x.value.values):
-                n += 1
-                res.touch(fi)
-                nm = next(v.id for v in x.value.values if isinstance(v, ast.Name) and "cosmo" in v.id)
+            if not (isinstance(x, (ast.Assign, ast.Return, ast.AnnAssign)) and x.value is not None and any(isinstance(y, ast.Call) and (dotted(y.func) or "").split(".")[-1] == "get_default_cosmology" for y in ast.walk(x.value))):
+                continue
+            n += 1
+            n_cos += 1
+            res.touch(fi)
+            nm = next((v.id for v in ast.walk(x.value) if isinstance(v, ast.Name) and v.id in cparams), cparams[0])
 
-                class _D(ast.NodeTransformer):
-                    def visit_Call(self, c_):
-                        return ast.Constant(value="DEFAULT") if (dotted(c_.func) or "").split(".")[-1] == "get_default_cosmology" else c_
+            class _D(ast.NodeTransformer):
+                def visit_Call(self, c_):
+                    return ast.Constant(value="DEFAULT") if (dotted(c_.func) or "").split(".")[-1] == "get_default_cosmology" else self.generic_visit(c_)
 
-                import copy as _cp
+            import copy as _cp
 
-                expr = _D().visit(_cp.deepcopy(x.value))
-                try:
-                    tab = (_fold_value(expr, {nm: "GIVEN"}), _fold_value(expr, {nm: None}))
-                except Exception:  # noqa: BLE001
-                    continue
-                if tab == ("GIVEN", "DEFAULT"):
-                    res.ok("C15.R15", res.site(fi, f"{nm} or default"), "a given cosmology is kept, a missing one replaced by the default")
-                else:
-                    res.violation("C15.R15", fi, x, f"`{unparse(x.value)}` gives {tab[0]!r} for a given cosmology and {tab[1]!r} for None: the cosmology that was passed in is replaced by the default (or a missing one stays None)", key_extra=f"cosmology-or-default-{fi.qualname}")
+            from ..cfg import cfg_of as _cfgof
+
+            fcfg = _cfgof(fi.node)
+            guards = [(t, pol) for nd in fcfg.node_containing(x) for t, pol in fcfg.guards(nd) if any(isinstance(y, ast.Name) and y.id == nm for y in ast.walk(t))]
+            expr = _D().visit(_cp.deepcopy(x.value))
+            tab = []
+            try:
+                for val in ("GIVEN", None):
+                    reach = all(bool(_fold_value(_cp.deepcopy(t), {nm: val})) == pol for t, pol in guards)
+                    tab.append(_fold_value(expr, {nm: val}) if reach else ("GIVEN" if val is not None else "UNREACHED"))
+            except Exception:  # noqa: BLE001
+                raise AnalysisError(f"C15.R15: cannot fold `{unparse(x.value)[:50]}` of {fi.short} for a given / a missing cosmology") from None
+            if tuple(tab) in (("GIVEN", "DEFAULT"), ("GIVEN", "UNREACHED")) and not (tab[1] == "UNREACHED" and not guards):
+                res.ok("C15.R15", res.site(fi, f"{nm} or default"), "a given cosmology is kept, a missing one replaced by the default")
+            else:
+                res.violation("C15.R15", fi, x, f"`{norm_stmt(x)[:70]}` gives {tab[0]!r} for a given cosmology and {tab[1]!r} for None: the cosmology that was passed in is replaced by the default (or a missing one stays None)", key_extra=f"cosmology-or-default-{fi.qualname}")
+    if n_cos < 2:
+        raise AnalysisError(f"C15.R15: only {n_cos} places found where a missing cosmology parameter is replaced by the default, minimum 2")
     # (e)
     base = prog.find_class("BaseConfig")
     gm = base.methods.get("modify") if base else None
